@@ -169,7 +169,7 @@ Definition exc_for (f : list N) (code : N) : list N := exc_bytes_tcp (mk_exc (ti
 
 (* what handle returns for a delimited frame of a supported function *)
 Inductive handled (f : list N) : pres (list N) -> Prop :=
-| H_refused : handled f (Ok (exc_for f 3))
+| H_refused : parse_tcp_request (exact f) = Err (err_tcp (tid_of f) (unit_of f) (fc_of f) 3) -> handled f (Ok (exc_for f 3))
 | H_resp t r w : parse_tcp_request (exact f) = Ok (t, r) -> t = tid_of f -> req_unit r = unit_of f ->
     req_fc r = fc_of f -> handler (t, r) = HResp w -> handled f (Ok w)
 | H_typed t r c : parse_tcp_request (exact f) = Ok (t, r) -> handler (t, r) = HErrTyped c -> handled f (Ok (exc_for f c))
@@ -197,8 +197,26 @@ Proof.
     + rewrite Hsub, H6, H7. cbn [bind]. eapply H_typed; eauto.
     + rewrite Hsub, H6, H7. cbn [bind]. eapply H_generic; eauto.
     + eapply H_panic; eauto.
-  - subst e. cbn [err_wire_tcp err_tcp]. apply H_refused.
+  - subst e. cbn [err_wire_tcp err_tcp]. apply H_refused. exact Ep.
   - contradiction.
+Qed.
+
+Lemma handled_ok_inv f w : handled f (Ok w) ->
+  (parse_tcp_request (exact f) = Err (err_tcp (tid_of f) (unit_of f) (fc_of f) 3) /\ w = exc_for f 3) \/
+  exists t r, parse_tcp_request (exact f) = Ok (t, r) /\
+    match handler (t, r) with
+    | HResp w' => w = w'
+    | HErrTyped c => w = exc_for f c
+    | HErrGeneric => w = exc_for f 0
+    | HPanic => False
+    end.
+Proof.
+  intros H. remember (Ok w) as x eqn:Ex. destruct H as [Ep|t r w' Ep _ _ _ Eh|t r c Ep Eh|t r Ep Eh|t r Ep Eh].
+  - injection Ex as <-. left. auto.
+  - injection Ex as <-. right. exists t, r. rewrite Eh. auto.
+  - injection Ex as <-. right. exists t, r. rewrite Eh. auto.
+  - injection Ex as <-. right. exists t, r. rewrite Eh. auto.
+  - discriminate Ex.
 Qed.
 
 (* every reply to a frame the classifier delimits *)
@@ -338,3 +356,221 @@ Proof.
   induction conns as [|c0 conns IH]; intros i chunk c H; [destruct i; discriminate|].
   destruct i as [|i]; cbn [server_read nth_error] in *; [congruence|]. apply IH. exact H.
 Qed.
+
+(* ---------- C16 in the vocabulary of the specification (ServerSpec.v) ---------- *)
+Require Import MB.ServerSpec.
+
+Lemma spec_fields f : (8 <= length f)%nat -> a_tid f = tid_of f /\ a_unit f = unit_of f /\ a_fc f = fc_of f.
+Proof.
+  intros H. destruct (eight_or_more f H) as (h0 & h1 & h2 & h3 & h4 & h5 & h6 & h7 & rest & ->).
+  unfold a_tid, a_unit, a_fc, fld16, byte_at, tid_of, unit_of, fc_of, be16. cbn [nth firstn]. auto.
+Qed.
+
+Lemma exc_for_spec f code : (8 <= length f)%nat -> fc_of f < 128 -> exc_for f code = exception_for f code.
+Proof.
+  intros H8 Hfc. unfold exc_for, exception_for. destruct (spec_fields f H8) as (-> & -> & ->).
+  apply exc_bytes_spec. exact Hfc.
+Qed.
+
+(* an exception ADU is well formed, 9 bytes long and carries the ids it was built from *)
+Lemma exception_adu_wf t u fc c :
+  wf_adu (exception_adu_tcp t u fc c) = true /\ length (exception_adu_tcp t u fc c) = 9%nat /\
+  a_tid (exception_adu_tcp t u fc c) = t /\ a_unit (exception_adu_tcp t u fc c) = u /\
+  a_fc (exception_adu_tcp t u fc c) = fc + 128 /\ nth 8 (exception_adu_tcp t u fc c) 0 = c.
+Proof.
+  unfold exception_adu_tcp, adu_tcp, exception_pdu, w16, hi, lo, wf_adu, a_proto, a_len, a_tid, a_unit, a_fc, fld16, byte_at.
+  cbn [app length nth]. repeat split; try reflexivity. lia.
+Qed.
+
+Lemma supported_lt_128 fc : is_supported fc = true -> fc < 128.
+Proof. unfold is_supported, supported_fcs. cbn [existsb]. lia. Qed.
+
+Definition frame_at (b : list N) (n : N) : slice :=
+  {| vis := firstn (N.to_nat n) b; spare := skipn (N.to_nat n) b |}.
+
+Section C16.
+Variable handler : N * req -> handler_result.
+
+(* every way the drain loop answers a frame it has cut off *)
+Theorem answer_cases b n e :
+  looks_like (exact b) false = Ok (n, e) -> is_too_short e = false -> n <> 0 -> n <= N.of_nat (length b) ->
+  delimited_frame (firstn (N.to_nat n) b) /\ N.of_nat (length (firstn (N.to_nat n) b)) = n /\
+  ((is_supported (fc_of (firstn (N.to_nat n) b)) = false /\
+      answer handler (frame_at b n) e = Ok (exc_for (firstn (N.to_nat n) b) 1)) \/
+   (is_supported (fc_of (firstn (N.to_nat n) b)) = true /\
+      handled handler (firstn (N.to_nat n) b) (answer handler (frame_at b n) e))).
+Proof.
+  intros Hl Hts Hn Hle. unfold frame_at.
+  destruct (Nat.lt_ge_cases (length b) 8) as [Hs|Hs].
+  { rewrite looks_exact_short in Hl by exact Hs. injection Hl as <- <-. discriminate Hts. }
+  destruct (looks_exact_cases b Hs) as [E|[(m & E & Hh & Hsup)|(m & E & Hh & Hsup)]];
+    rewrite E in Hl; injection Hl as <- <-; try congruence;
+    destruct (header_ok_frame b m Hs Hh Hle) as (Hd & Ht & Hu & Hf & _);
+    remember (firstn (N.to_nat m) b) as f eqn:Ef;
+    assert (Hlen : N.of_nat (length f) = m) by (subst f; rewrite firstn_length; lia);
+    (split; [exact Hd|]); (split; [exact Hlen|]).
+  - right. rewrite Hf. split; [exact Hsup|].
+    unfold answer. rewrite handle_cap_indep. apply handle_delimited; [exact Hd|rewrite Hf; exact Hsup].
+  - left. rewrite Hf. split; [exact Hsup|].
+    unfold answer, exc_for. cbn [err_tcp err_wire_tcp]. rewrite Ht, Hu, Hf. reflexivity.
+Qed.
+
+(* C16: exception replies.  [f] is the frame, [w] the reply. *)
+Theorem exception_replies b n e w :
+  looks_like (exact b) false = Ok (n, e) -> is_too_short e = false -> n <> 0 -> n <= N.of_nat (length b) ->
+  answer handler (frame_at b n) e = Ok w ->
+  let f := firstn (N.to_nat n) b in
+  (* unsupported function code 1..127: illegal function *)
+  (is_supported (a_fc f) = false -> a_fc f < 128 -> w = exception_for f ILLEGAL_FUNCTION) /\
+  (* supported function: whatever the parser refuses is answered with illegal data value ... *)
+  (is_supported (a_fc f) = true ->
+     (forall x, parse_tcp_request (exact f) = Err x -> w = exception_for f ILLEGAL_DATA_VALUE) /\
+     (* ... a parsed request carries the frame's ids and is answered by the handler's packet or
+        by an exception with the handler's code (0 for an untyped error) ... *)
+     (forall t r, parse_tcp_request (exact f) = Ok (t, r) ->
+        t = a_tid f /\ req_unit r = a_unit f /\ req_fc r = a_fc f /\
+        match handler (t, r) with
+        | HResp w' => w = w'
+        | HErrTyped c => w = exception_for f c
+        | HErrGeneric => w = exception_for f 0
+        | HPanic => False
+        end) /\
+     (* ... and the parser never panics on it *)
+     parse_tcp_request (exact f) <> Panic).
+Proof.
+  intros Hl Hts Hn Hle Hw. cbn zeta.
+  destruct (answer_cases b n e Hl Hts Hn Hle) as (Hd & _ & Hc).
+  remember (firstn (N.to_nat n) b) as f eqn:Ef.
+  pose proof Hd as (H8 & _).
+  destruct (spec_fields f H8) as (Et & Eu & Efc). rewrite Efc.
+  split.
+  - intros Hns Hlt. destruct Hc as [[_ Ha]|[Hs _]]; [|congruence].
+    rewrite Ha in Hw. injection Hw as <-. apply exc_for_spec; assumption.
+  - intros Hs. destruct Hc as [[Hns _]|[_ Hh]]; [congruence|].
+    pose proof (supported_lt_128 _ Hs) as Hlt.
+    pose proof (fun c => exc_for_spec f c H8 Hlt) as Hx.
+    pose proof (parse_delimited f [] Hd Hs) as Hp. change {| vis := f; spare := [] |} with (exact f) in Hp.
+    rewrite Hw in Hh. apply handled_ok_inv in Hh.
+    split; [|split].
+    + intros x Ex. destruct Hh as [[_ ->]|(t & r & Ep & _)]; [apply Hx|congruence].
+    + intros t r Ep. rewrite Ep in Hp. cbn [parse_shape] in Hp. destruct Hp as (A & B & C).
+      rewrite Et, Eu. repeat (split; [assumption|]).
+      destruct Hh as [[Ee _]|(t' & r' & Ep' & Hm)]; [congruence|].
+      rewrite Ep in Ep'. injection Ep' as <- <-.
+      destruct (handler (t, r)); try rewrite <- !Hx; exact Hm.
+    + intros Epanic. rewrite Epanic in Hp. exact Hp.
+Qed.
+
+(* C16: every reply is a well-formed ADU addressed to its request.  Premise: the packets the
+   handler returns are well-formed ADUs that echo transaction id and unit id of the request they
+   were given (the handler's contract) *)
+Definition handler_echoes : Prop :=
+  forall t r w, handler (t, r) = HResp w -> wf_adu w = true /\ a_tid w = t /\ a_unit w = req_unit r.
+
+Theorem reply_addressed b n e w :
+  handler_echoes ->
+  looks_like (exact b) false = Ok (n, e) -> is_too_short e = false -> n <> 0 -> n <= N.of_nat (length b) ->
+  answer handler (frame_at b n) e = Ok w ->
+  let f := firstn (N.to_nat n) b in
+  wf_adu w = true /\ addressed_to f w = true.
+Proof.
+  intros Hecho Hl Hts Hn Hle Hw. cbn zeta.
+  destruct (answer_cases b n e Hl Hts Hn Hle) as (Hd & _ & Hc).
+  remember (firstn (N.to_nat n) b) as f eqn:Ef.
+  pose proof Hd as (H8 & _).
+  destruct (spec_fields f H8) as (Et & Eu & Efc).
+  assert (Hexc : forall c, wf_adu (exc_for f c) = true /\ addressed_to f (exc_for f c) = true).
+  { intros c. unfold exc_for, exc_bytes_tcp, wf_adu, addressed_to, a_proto, a_len, a_tid, a_unit, fld16, byte_at, put16, mk_exc.
+    cbn [x_tid x_unit x_fc x_code app length nth]. rewrite <- Et, <- Eu.
+    unfold a_tid, a_unit, fld16, byte_at. split; [reflexivity|]. lia. }
+  destruct Hc as [[_ Ha]|[Hs Hh]].
+  - rewrite Ha in Hw. injection Hw as <-. apply Hexc.
+  - rewrite Hw in Hh. apply handled_ok_inv in Hh.
+    destruct Hh as [[_ ->]|(t & r & Ep & Hm)]; [apply Hexc|].
+    pose proof (parse_delimited f [] Hd Hs) as Hp. change {| vis := f; spare := [] |} with (exact f) in Hp.
+    rewrite Ep in Hp. cbn [parse_shape] in Hp. destruct Hp as (A & B & _).
+    destruct (handler (t, r)) as [w'|c| |] eqn:Eh; try (subst w; apply Hexc); [|contradiction].
+    subst w'. destruct (Hecho t r w Eh) as (Hwf & Htid & Hunit).
+    split; [exact Hwf|]. unfold addressed_to. rewrite Htid, Hunit, Et, Eu, A, B. rewrite !N.eqb_refl. reflexivity.
+Qed.
+
+(* a handler panic is the only way the answer to a delimited frame can panic *)
+Theorem answer_panic_only_from_handler b n e :
+  looks_like (exact b) false = Ok (n, e) -> is_too_short e = false -> n <> 0 -> n <= N.of_nat (length b) ->
+  answer handler (frame_at b n) e = Panic ->
+  exists t r, parse_tcp_request (exact (firstn (N.to_nat n) b)) = Ok (t, r) /\ handler (t, r) = HPanic.
+Proof.
+  intros Hl Hts Hn Hle Hp.
+  destruct (answer_cases b n e Hl Hts Hn Hle) as (_ & _ & [[_ Ha]|[_ Hh]]); [congruence|].
+  rewrite Hp in Hh. remember Panic as x eqn:Ex.
+  destruct Hh as [Ep|t r w' Ep _ _ _ Eh|t r c Ep Eh|t r Ep Eh|t r Ep Eh]; try discriminate Ex. eauto.
+Qed.
+End C16.
+
+(* ---------- faults end one connection and nothing else ---------- *)
+Section Faults.
+Variable handler : N * req -> handler_result.
+
+(* a panic while handling a read: nothing of that read is written, the connection is over *)
+Theorem conn_read_panic c chunk :
+  c_status c = Open -> chunk <> [] ->
+  r_status (receive_read handler (c_buf c) chunk) = Panicked ->
+  c_status (conn_read handler c chunk) = Panicked /\ c_written (conn_read handler c chunk) = c_written c.
+Proof.
+  intros Ho Hne Hp. unfold conn_read, asm_read. destruct chunk; [congruence|].
+  rewrite Ho, Hp. cbn. auto.
+Qed.
+
+(* a connection that is closed or has panicked never does anything again *)
+Theorem conn_read_over c chunk : c_status c <> Open -> conn_read handler c chunk = c.
+Proof. intros H. rewrite conn_read_refines. apply aconn_read_done. exact H. Qed.
+
+(* the frame at the head of the buffer makes the handler panic: the call panics *)
+Theorem drain_head_panic b n e fuel out :
+  looks_like (exact b) false = Ok (n, e) -> is_too_short e = false -> n <> 0 -> n <= N.of_nat (length b) ->
+  answer handler (frame_at b n) e = Panic ->
+  r_status (drain handler (S fuel) b out) = Panicked /\ r_out (drain handler (S fuel) b out) = [].
+Proof.
+  intros Hl Hts Hn Hle Hp. cbn [drain]. rewrite Hl.
+  assert (Hmatch : forall (A : Type) (x y : A), match e with Some ETooShortTCP => x | _ => y end = y).
+  { intros A x y. destruct e as [[]|]; try reflexivity. discriminate Hts. }
+  rewrite Hmatch. replace (n =? 0) with false by lia.
+  replace (N.of_nat (length b) <? n) with false by lia.
+  unfold frame_at in Hp. rewrite Hp. cbn. auto.
+Qed.
+
+(* non-Modbus bytes at the head of the buffer: the farewell exception is returned, the buffer is
+   dropped and the connection is to be closed *)
+Theorem drain_head_not_modbus b fuel out :
+  looks_like (exact b) false = Ok (0, Some ENotTCP) ->
+  drain handler (S fuel) b out =
+    {| r_buf := []; r_out := out ++ exc_bytes_tcp (mk_exc 0 0 0 0); r_status := Closed |}.
+Proof. intros Hl. cbn [drain]. rewrite Hl. reflexivity. Qed.
+
+(* the frame lemma: a read on connection i changes connection i only *)
+Lemma server_read_at : forall conns i chunk,
+  nth_error (server_read handler conns i chunk) i = option_map (fun c => conn_read handler c chunk) (nth_error conns i).
+Proof.
+  induction conns as [|c conns IH]; intros i chunk; [destruct i; reflexivity|].
+  destruct i as [|i]; cbn [server_read nth_error option_map]; [reflexivity|apply IH].
+Qed.
+
+Definition reads_of (j : nat) (events : list (nat * list N)) : list (list N) :=
+  map snd (filter (fun ev => Nat.eqb (fst ev) j) events).
+
+(* whatever happens on the other connections -- garbage, panics, closes -- the state of
+   connection j after any interleaving is the state it reaches on its own reads alone *)
+Theorem server_run_isolated : forall events conns j,
+  nth_error (server_run handler conns events) j =
+  option_map (fun c => fold_left (conn_read handler) (reads_of j events) c) (nth_error conns j).
+Proof.
+  unfold server_run.
+  induction events as [|[i chunk] events IH]; intros conns j; cbn [fold_left reads_of filter map fst snd].
+  - destruct (nth_error conns j); reflexivity.
+  - rewrite IH. fold (reads_of j events).
+    destruct (Nat.eqb i j) eqn:Eij.
+    + apply Nat.eqb_eq in Eij. subst i. rewrite server_read_at.
+      cbn [map snd fold_left]. destruct (nth_error conns j); reflexivity.
+    + apply Nat.eqb_neq in Eij. rewrite server_read_other by exact Eij. reflexivity.
+Qed.
+End Faults.
